@@ -253,6 +253,7 @@ type PXConfig struct {
 	MaxDepth     int
 	MaxVisits    int
 	MaxPaths     int
+	MaxIndex     int                        // paths that touch element MaxIndex (or beyond) of a slice of unknown contents are not explored (0: no bound)
 	Opaque       func(f *ssa.Function) bool // do not inline; record a call event
 	SkipErrEdges bool                       // do not follow the failure edge of an error test
 	KeepEdge     func(l Lit) bool           // override: follow even if it is an error edge
@@ -481,6 +482,9 @@ func (r *pxRun) block(st *pxState, fr *pxFrame, b, pred *ssa.BasicBlock, done fu
 func (r *pxRun) instrs(st *pxState, fr *pxFrame, b *ssa.BasicBlock, from int, done func(*pxState, *pxFrame, []*T, string)) {
 	for i := from; i < len(b.Instrs); i++ {
 		r.steps++
+		if _, dead := st.mem["#abort"]; dead {
+			return
+		}
 		in := b.Instrs[i]
 		switch x := in.(type) {
 		case *ssa.DebugRef:
@@ -720,6 +724,34 @@ func (st *pxState) refineLen(l Lit) bool {
 				}
 			}
 		}
+	case strings.HasPrefix(a, "eq(") && strings.HasSuffix(a, "))") && strings.Contains(a, ",len("):
+		// eq(C,len(X))
+		body := a[3 : len(a)-1]
+		if i := strings.Index(body, ",len("); i > 0 {
+			if c, err := strconv.ParseInt(body[:i], 10, 64); err == nil {
+				x = body[i+5 : len(body)-1]
+				if l.Pol {
+					lo, hi = c, c
+				} else {
+					// len(x) != c: only useful once the bounds have closed on c
+					curLo, okLo := st.mem["#lo:"+x]
+					curHi, okHi := st.mem["#hi:"+x]
+					if okLo && okHi {
+						a1, _ := curLo.intVal()
+						b1, _ := curHi.intVal()
+						if a1 == c && b1 == c {
+							return false
+						}
+					}
+					if kn, ok := st.mem["#len:"+x]; ok {
+						if n, ok := kn.intVal(); ok && n == c {
+							return false
+						}
+					}
+					return true
+				}
+			}
+		}
 	case strings.HasPrefix(a, "lt(len("):
 		body := a[3 : len(a)-1]
 		if i := strings.LastIndex(body, "),"); i > 0 {
@@ -921,7 +953,11 @@ func (r *pxRun) eval(st *pxState, fr *pxFrame, v ssa.Value) *T {
 	case *ssa.FieldAddr:
 		return &T{Op: "faddr", A: []*T{r.val(st, fr, x.X)}, Aux: fieldName(x.X.Type(), x.Field), Typ: x.Type()}
 	case *ssa.IndexAddr:
-		return &T{Op: "iaddr", A: []*T{r.val(st, fr, x.X), r.val(st, fr, x.Index)}, Typ: x.Type()}
+		base, idx := r.val(st, fr, x.X), r.val(st, fr, x.Index)
+		if n, ok := idx.intVal(); ok && r.cfg.MaxIndex > 0 && int(n) >= r.cfg.MaxIndex && !base.HasEl && base.Op != "alloc" && base.Op != "make" {
+			st.mem["#abort"] = cBool(true) // beyond the number of items this exploration looks at
+		}
+		return &T{Op: "iaddr", A: []*T{base, idx}, Typ: x.Type()}
 	case *ssa.Field:
 		return fieldOfTerm(r.val(st, fr, x.X), fieldName(x.X.Type(), x.Field), x.Type())
 	case *ssa.Index:
